@@ -360,6 +360,7 @@ def rule_simplify_member(ctx: Ctx) -> None:
 
 
 def run(ctx: Ctx) -> None:
+    rule_group_order(ctx)
     from .c14 import rule_wrapper_per_operation
     rule_wrapper_per_operation(ctx)  # the exported body of a local Clifford is the product of *all* its listed gates
     rule_simplify_member(ctx)
@@ -381,7 +382,57 @@ def run(ctx: Ctx) -> None:
     ctx.floor("order.wrapper", 8)
 
 
+def rule_group_order(ctx: Ctx) -> None:
+    """group.order: group_one_qubit_gates walks a register *backwards* (from its Output node along in-edges), so what it meets later acts
+    earlier.  A OneQubitGateWrapper's list is a matrix product (first element acts last), hence every gate met — and the whole list of
+    a wrapper met — goes to the *end* of the list being collected.  Prepending (`lst = x + lst`, insert(0, ..)) reverses the order of
+    the run relative to the wrapper, and non-commuting gates are then applied the wrong way round."""
+    import ast as _ast
+    from ..core import call_attr as _ca, calls_in as _calls, norm as _norm, short as _short
+    repo = ctx.repo
+    DAGF = "graphiq/circuit/circuit_dag.py"
+    m = repo.module(DAGF)
+    fn = repo.anchor(DAGF, "CircuitDAG.group_one_qubit_gates")
+    ctx.touch(m, fn)
+    backward = any(_ca(c) == "in_edges" for c in _calls(fn)) and not any(_ca(c) == "out_edges" and "next_node" not in _norm(c) for c in _calls(fn))
+    wr = [c for c in _calls(fn) if (_ca(c) or "") == "OneQubitGateWrapper" and c.args and isinstance(c.args[0], _ast.Name)]
+    if not wr:
+        raise AnalysisError("group_one_qubit_gates: construction of the grouping wrapper not found")
+    lists = {_norm(wr[0].args[0])}
+    nk = next((k.value for k in wr[0].keywords if k.arg == "noise"), None)
+    if isinstance(nk, _ast.Name):
+        lists.add(nk.id)
+    if not any(_ca(c) == "in_edges" for c in _calls(fn)):
+        raise AnalysisError("group_one_qubit_gates: direction of the walk not recognised")
+    bad = []
+    n_acc = 0
+    for a in _ast.walk(fn):
+        if isinstance(a, _ast.Assign) and len(a.targets) == 1 and _norm(a.targets[0]) in lists and isinstance(a.value, _ast.BinOp) and isinstance(a.value.op, _ast.Add):
+            L = _norm(a.targets[0])
+            n_acc += 1
+            if _norm(a.value.right) == L and _norm(a.value.left) != L:
+                bad.append(a)
+        elif isinstance(a, _ast.AugAssign) and _norm(a.target) in lists:
+            n_acc += 1
+        elif isinstance(a, _ast.Call) and isinstance(a.func, _ast.Attribute) and _norm(a.func.value) in lists:
+            if a.func.attr in ("append", "extend"):
+                n_acc += 1
+            elif a.func.attr == "insert":
+                n_acc += 1
+                bad.append(a)
+    if n_acc < 2:
+        raise AnalysisError("group_one_qubit_gates: accumulation into the gate list not found")
+    if bad:
+        ctx.fail("group.order", m, bad[0],
+                 f"group_one_qubit_gates walks the register backwards and puts what it meets in *front* of the collected list (`{_short(bad[0])}`): gates met "
+                 f"later act earlier and belong at the end of a wrapper's product-ordered list — W[H,P] followed by P must give [P,H,P], not [H,P,P]",
+                 func="CircuitDAG.group_one_qubit_gates", construct="group_one_qubit_gates: prepend during a backward walk")
+    else:
+        ctx.ok("group.order", m, wr[0], what=f"{n_acc} accumulations, all at the end of the list (backward walk)")
+
+
 KNOCKOUTS = [
+    Knockout("grouping-prepends-wrapper-gates", "graphiq/circuit/circuit_dag.py", sub_once("                        gate_list += op.operations\n                        noise_list += op.noise\n", "                        gate_list = op.operations + gate_list\n                        noise_list = op.noise + noise_list\n"), "group.order", "prepend"),
     Knockout("simplify-early-return", OPS, sub_once("    matrix = local_clifford_to_matrix_map(gate_list)\n\n    return find_local_clifford_by_matrix(matrix)", "    if len(gate_list) == 2:\n        return gate_list\n    matrix = local_clifford_to_matrix_map(gate_list)\n\n    return find_local_clifford_by_matrix(matrix)"), "simplify.member", "bypasses the table lookup"),
     Knockout("phase-pivot-mixed", DMF, sub_once("    column = nonzero[1][0]\n", "    column = nonzero[1][-1]\n"), "phase.pivot", "not provably non-zero"),
     Knockout("E5-duplicate", OPS, sub_once("        [Hadamard, Phase],\n", "        [Phase, Phase, Phase, Phase],\n"), "table.clifford24", "duplicate"),
